@@ -261,7 +261,9 @@ class Kernel(object):
         self.kill_log.append({"t": self.clock, "pid": pid, "sig": int(sig), "ctx": self.context, "tracked": tracked,
                               "age": p.age if p else None, "mode": p.mode if p else None,
                               "hb_age": (self.clock - self.heartbeat_frozen(p)) if p and p.state == "alive" else None,
-                              "lag": p.lag if p else None, "wtimeout": p.worker.timeout if p and p.worker else None})
+                              "lag": p.lag if p else None, "wtimeout": p.worker.timeout if p and p.worker else None,
+                              "born": p.born if p else None, "last_reload": getattr(self, "last_reload", None),
+                              "master_timeout": getattr(self.arbiter, "timeout", None) if self.arbiter else None})
         self.boundary("kill")
         p = self.procs.get(pid)
         if p is None or p.state == "gone":
@@ -341,7 +343,10 @@ class Kernel(object):
             for s in ev[1]:
                 self.deliver(getattr(real_signal, s))
         elif kind == "hup":
+            self.last_reload = self.clock
             self.next_reload_settings = {"workers": ev[1]}
+            if len(ev) > 2 and isinstance(ev[2], int) and ev[2] > 0:
+                self.next_reload_settings["timeout"] = ev[2]
             self.deliver(real_signal.SIGHUP)
         elif kind == "fastdeath":
             self.fast_death = ev[1]
